@@ -557,10 +557,13 @@ def gen_scheds(prop, tier, seed, d):
                 "AllowWait": "TRUE"})
     n2 = run("sim", sim, ["-simulate", "num=%d" % (6000 if T else 800), "-depth", "60", "-seed", str(seed)], 900)
     rng = __import__("random").Random(seed)
-    if not T and len(out) > 6000:
+    # every behaviour is model-checked by StreamMC anyway; of the emitted ones a seeded sample is replayed in the
+    # real code (all of them if they are few): 5 000 in the quick tier, 60 000 in the thorough one
+    cap = 60000 if T else 5000
+    if len(out) > cap + 1000:
         head = out[:n1]
         rng.shuffle(head)
-        out = head[:5000] + out[n1:]
+        out = head[:cap] + out[n1:]
     seen = set()
     uniq = []
     for s in out:
